@@ -179,7 +179,15 @@ def r3_each_byte_once_and_unchanged(ctx):
             ctx.bad("pop|unconditional", g.where(c.block), "the last byte of the line is removed without testing that it is the newline: an unterminated final line loses its last character")
 
 
-RULES = [("C17-R1", r1_no_discarded_overread), ("C17-R2", r2_terminator_and_eof), ("C17-R3", r3_each_byte_once_and_unchanged)]
+def r4_reads_are_never_pruned(ctx):
+    """Every read_line call a program makes is executed: the effect tables class the built-in Impure, so a call whose result is
+    unused (a header line that is only skipped) is not removed by the optimisation plan - otherwise later calls return earlier
+    lines (shared with C03-R2, which compares each built-in's run-time arm with its effect class)."""
+    from .c03 import r2_effect_tables
+    r2_effect_tables(ctx)
+
+
+RULES = [("C17-R1", r1_no_discarded_overread), ("C17-R2", r2_terminator_and_eof), ("C17-R3", r3_each_byte_once_and_unchanged), ("C17-R4", r4_reads_are_never_pruned)]
 
 EXPLANATION = (
     "R1: in the host implementation of Stdin::read_line (resolved through the sys::stdin alias from GlobalBuiltin::read_line) "
